@@ -436,6 +436,8 @@ func Run(run *kernel.Run, prop string) {
 			w.opDrbg(step)
 		case 6:
 			w.opSchnorrVariation(step)
+		case 7:
+			w.opLongHistory(step)
 		}
 	}
 	run.Res.Steps = step
@@ -444,13 +446,13 @@ func Run(run *kernel.Run, prop string) {
 }
 
 func (w *World) opWeights() []int {
-	// kinds: ecdsa, variation, schnorr, sampler(hook), generatekey, drbg, schnorr-variation
-	base := []int{8, 6, 3, 2, 1, 1, 1}
+	// kinds: ecdsa, variation, schnorr, sampler(hook), generatekey, drbg, schnorr-variation, long history
+	base := []int{8, 6, 3, 2, 1, 1, 1, 2}
 	switch w.prop {
 	case "C14":
-		base = []int{2, 1, 10, 0, 0, 0, 5}
+		base = []int{2, 1, 10, 0, 0, 0, 5, 0}
 	case "C08":
-		base = []int{10, 5, 1, 0, 1, 0, 0}
+		base = []int{10, 5, 1, 0, 1, 0, 0, 4}
 	}
 	// swarm: knock out or boost some kinds per run
 	out := make([]int, len(base))
